@@ -38,6 +38,9 @@ func (c *Collector) Case(fingerprint []byte, nontrivial bool, labels []string, s
 	c.mu.Lock()
 	defer c.mu.Unlock()
 	c.Cases++
+	if c.Cases%250 == 0 {
+		defer c.flushLocked()
+	}
 	for _, l := range labels {
 		c.Labels[l]++
 	}
@@ -99,6 +102,17 @@ func (c *Collector) Flush() {
 	}
 	c.mu.Lock()
 	defer c.mu.Unlock()
+	c.flushLocked()
+}
+
+func (c *Collector) flushLocked() {
+	dir := os.Getenv("VERIF_STATS_DIR")
+	if dir == "" {
+		return
+	}
 	b, _ := json.Marshal(c)
-	_ = os.WriteFile(dir+"/"+c.Test+".json", b, 0o644)
+	tmp := dir + "/" + c.Test + ".json.tmp"
+	if os.WriteFile(tmp, b, 0o644) == nil {
+		_ = os.Rename(tmp, dir+"/"+c.Test+".json")
+	}
 }
